@@ -28,10 +28,10 @@ theorem R_held {b b' : B} {s s' : Spec.Broker.S} (h : R b s)
     (hown : ∀ x ∈ s'.held, x.owner < cbBase → b.alive x.owner = true)
     (hlive : ∀ c, b.alive c = true → Spec.Broker.heldOf s' c = Spec.Broker.heldOf s c)
     (hrets : s'.rets = s.rets) (hstored : s'.stored = s.stored) (hconns : s'.conns = s.conns)
-    (hov : s'.overlap = s.overlap) : R b' s' := by
+    : R b' s' := by
   have hal : ∀ c, b'.alive c = b.alive c := Mqtt.Proofs.Broker.alive_congr b b' hc
-  refine ⟨inv', linv', qinv', by rw [hov]; exact h.overlap, hheld, hgood, ?_, by rw [hrr, hrets]; exact h.rets,
-    by rw [hrets]; exact h.retsOk, by unfold IdsOk; rw [hrr]; exact h.retIds, ?_, by rw [hconns]; exact h.sconns,
+  refine ⟨inv', linv', qinv', hheld, hgood, ?_, by rw [hrr, hrets]; exact h.rets,
+    by rw [hrets]; exact h.retsOk, by unfold IdsOk; rw [hrr]; exact h.retIds, ?_, by rw [hc]; exact h.mconns, by rw [hconns]; exact h.sconns,
     ?_, ?_, ?_, ?_⟩
   · intro x hx hlt; rw [hal]; exact hown x hx hlt
   · intro c hc'; rw [hal] at hc'; exact h.connLt c hc'
@@ -154,7 +154,6 @@ theorem R_update (h : R b s) {k k' : Spec.Broker.Conn}
     (hrets : s'.rets = s.rets) (hstored : s'.stored = s.stored)
     (hnd : (s'.conns.map (·.id)).Nodup)
     (hgc : ∀ c', Spec.Broker.getConn s' c' = if c' = c then some k' else Spec.Broker.getConn s c')
-    (hov : s'.overlap = s.overlap)
     (hrel : LiveRel b' s' c σ' k') : R b' s' := by
   have hal : ∀ c, b'.alive c = b.alive c := Mqtt.Proofs.Broker.alive_congr b b' hc
   have hlu := liveSess_update h hl hc hs href
@@ -166,8 +165,8 @@ theorem R_update (h : R b s) {k k' : Spec.Broker.Conn}
     · subst he; simp only [↓reduceIte, Option.some.injEq] at ht; subst ht
       exact ⟨σ, hl, hcid.symm⟩
     · simp only [he, ↓reduceIte] at ht; exact ⟨τ, ht, rfl⟩
-  refine ⟨inv', linv', qinv', by rw [hov]; exact h.overlap, hheld, hgood, ?_, by rw [hrr, hrets]; exact h.rets,
-    by rw [hrets]; exact h.retsOk, by unfold IdsOk; rw [hrr]; exact h.retIds, ?_, ?_, ?_, ?_, ?_, ?_⟩
+  refine ⟨inv', linv', qinv', hheld, hgood, ?_, by rw [hrr, hrets]; exact h.rets,
+    by rw [hrets]; exact h.retsOk, by unfold IdsOk; rw [hrr]; exact h.retIds, ?_, by rw [hc]; exact h.mconns, ?_, ?_, ?_, ?_, ?_⟩
   · intro x hx hlt; rw [hal]; exact hown x hx hlt
   · intro c' hc'; rw [hal] at hc'; exact h.connLt c' hc'
   · exact hnd
